@@ -89,17 +89,48 @@ package selector
 //@           decreases end - i
 //@ func (Selector).Select
 //@   inline
+//@ // segText(a, o, n): the recorded texts of the n segments a[o..o+n), joined
+//@ pure func segText(a Arr[segment], o int, n int) string = n <= 0 ? "" : segText(a, o, n-1) ++ a[idx(o, n-1)].str
+//@ lemma [C14] seg_ext(a Arr[segment], o int, b Arr[segment], p int, n int):
+//@     (forall i int :: {a[idx(o, i)]} 0 <= i && i < n ==> a[idx(o, i)] == b[idx(p, i)]) ==> segText(a, o, n) == segText(b, p, n) by induction on n
+//@   trigger segText(a, o, n), segText(b, p, n)
+//@ lemma [C14] seg_snoc(a Arr[segment], o int, n int, b Arr[segment], p int, m int):
+//@     m == n + 1 && n >= 0 && (forall i int :: {b[idx(p, i)]} 0 <= i && i < n ==> b[idx(p, i)] == a[idx(o, i)]) ==> segText(b, p, m) == segText(a, o, n) ++ b[idx(p, n)].str
+//@   use seg_ext
+//@   trigger segText(b, p, m), segText(a, o, n)
+//@ // segments that carry the texts of the first n tokens print as those tokens joined
+//@ lemma [C14] seg_tokens(a Arr[segment], o int, b StrArr, p int, n int):
+//@     (forall i int :: {a[idx(o, i)]} 0 <= i && i < n ==> a[idx(o, i)].str == b[idx(p, i)]) ==> segText(a, o, n) == concatN(b, p, n) by induction on n
+//@   trigger segText(a, o, n), concatN(b, p, n)
 //@ func (Selector).String
 //@   ensures [C09] total: true
+//@   ensures [C14] text: result == segText(elems(s), off(s), len(s))
 //@   assigns [C20] nothing
-//@   loop 0: invariant 0 <= k && k <= len(s)
+//@   loop 0: invariant 0 <= k && k <= len(s) && built(&res) == segText(elems(s), off(s), k)
 //@           decreases len(s) - k
 //@
 //@ // ---- C14: a selector text is interpreted in full or rejected -------------------------------------------------------
 //@ // tokenize cuts the text at every '.' and '[' outside quotes: the first token starts the text, the last one ends it
 //@ // (so no tail is dropped), no token is empty
+//@ // concatN(a, o, n): the n strings a[o..o+n) joined without separator; it depends on those n elements only (concat_ext)
+//@ pure func concatN(a StrArr, o int, n int) string = n <= 0 ? "" : concatN(a, o, n-1) ++ a[idx(o, n-1)]
+//@ lemma [C14] concat_ext(a StrArr, o int, b StrArr, p int, n int):
+//@     (forall i int :: {a[idx(o, i)]} 0 <= i && i < n ==> a[idx(o, i)] == b[idx(p, i)]) ==> concatN(a, o, n) == concatN(b, p, n) by induction on n
+//@   trigger concatN(a, o, n), concatN(b, p, n)
+//@ // appending one string: if b[p..p+n) repeats a[o..o+n) and m == n+1, the m strings of b are the n strings of a followed by b[p+n]
+//@ lemma [C14] concat_snoc(a StrArr, o int, n int, b StrArr, p int, m int):
+//@     m == n + 1 && n >= 0 && (forall i int :: {b[idx(p, i)]} 0 <= i && i < n ==> b[idx(p, i)] == a[idx(o, i)]) ==> concatN(b, p, m) == concatN(a, o, n) ++ b[idx(p, n)]
+//@   use concat_ext
+//@   trigger concatN(b, p, m), concatN(a, o, n)
+//@ // the tokens of a text, named as functions of the text (tokenize is deterministic)
+//@ ghost func tokCount(str string) int
+//@ ghost func tokAt(str string, i int) string
 //@ func tokenize
 //@   requires len(str) > 0 && str[0] == '.'
+//@   use concat_ext, concat_snoc
+//@   assumes quiet-names: len(result) == tokCount(str) && (forall i int :: {result[i]} 0 <= i && i < len(result) ==> result[i] == tokAt(str, i))
+//@   ensures [C14] quiet-adjacent: concatN(elems(result), off(result), len(result)) == str
+//@   loop 0: invariant concatN(elems(toks), off(toks), len(toks)) == substr(str, 0, ofs)
 //@   ensures [C14] first: len(result) > 0 && hasPrefix(str, result[0])
 //@   ensures [C14] last: len(result) > 0 && result[len(result) - 1] == substr(str, len(str) - len(result[len(result) - 1]), len(str)) && len(result[len(result) - 1]) <= len(str)
 //@   ensures [C14] nonempty: forall i int :: 0 <= i && i < len(result) ==> len(result[i]) > 0
@@ -122,6 +153,10 @@ package selector
 //@   ensures [C14,C12] wf: result1 == nil ==> (forall i int :: 0 <= i && i < len(result0) ==> wfSeg(result0[i]))
 //@   ensures [C14,C12] ownbounds: result1 == nil ==> (forall i int, j int :: 0 <= i && i < j && j < len(result0) && len(result0[i].slice) == 2 && len(result0[j].slice) == 2 ==> !samebase(result0[i].slice, result0[j].slice))
 //@   ensures [C14] rejected: result1 != nil ==> result0 == nil
+//@   // one segment per token, carrying the token's text (or "." for an identity token, whose optional markers are dropped)
+//@   ensures [C14] texts by tokenize.names: result1 == nil && str != "." && str != ".?" ==> len(result0) == tokCount(str) && (forall i int :: {result0[i]} 0 <= i && i < len(result0) ==> (result0[i].str == tokAt(str, i) || (result0[i].identity && result0[i].str == ".")))
+//@   // printing reproduces the text: when every segment carries its token's text, the recorded texts joined are the input
+//@   ensures [C14] roundtrip by seg_tokens, concat_ext, tokenize.names, tokenize.adjacent: result1 == nil && (str == "." || str == ".?" || (forall i int :: {result0[i]} 0 <= i && i < len(result0) ==> result0[i].str == tokAt(str, i))) ==> segText(elems(result0), off(result0), len(result0)) == str
 //@   ensures [C14] quoted: result1 == nil ==> (forall i int :: 0 <= i && i < len(result0) && len(result0[i].str) >= 2 && result0[i].str[1] == '"' ==> segField(result0[i]))
 //@   loop 0: invariant 0 <= k && k <= len(ranged) && len(sel) == k && (sel == nil || fresh(sel))
 //@   loop 0: invariant texts: forall i int :: 0 <= i && i < k ==> (sel[i].str == ranged[i] || (sel[i].identity && sel[i].str == "."))
